@@ -84,7 +84,7 @@ int main(int argc, char** argv) {
 		// fixed setup (monitored like everything else): JIT cache, key, dataset for fast sets, the VM
 		std::vector<Op> setup = { { ALLOC_CACHE, 0, 1 }, { INIT_CACHE, 0, 0 } }; if (A.full()) { setup.push_back({ ALLOC_DS, 0, 0 }); setup.push_back({ INIT_DS, 0, 0 }); } setup.push_back({ CREATE_VM, 0, 0 });
 		for (auto& o : setup) { bool ok = W.enabled(o) && W.apply(o); std::string sc = ok ? wx_check(W) : W.problem; H.push_back(o); if (!ok || !sc.empty()) { record(H, sc.empty() ? "setup failed" : sc, 0); break; } }
-		if (!SH->nviol) { visit(W.digest(), depth); explore(depth); }
+		if (!SH->nviol) for (int d = 1; d <= depth; ++d) { uint64_t keep = SH->nviol; memset(SH, 0, sizeof(Shared) + TAB * sizeof(Shared::E)); SH->nviol = keep; visit(W.digest(), d); explore(d); if (SH->nviol) break; }   // iterative deepening
 		R.n["states"] = SH->states; R.n["transitions"] = SH->transitions; R.n["hashes_checked"] = SH->hashes; R.n["explorations"] = 1; R.mx["history_length"] = SH->max_depth_reached;
 		R.tags.insert(j.name + ": " + std::to_string(SH->states) + " states");
 		for (uint64_t i = 0; i < std::min<uint64_t>(SH->nviol, 8); ++i) {
